@@ -181,6 +181,26 @@ CHECKS["C20"] = {
                     "an unbounded value always advances its timestamp (delta_max >= 1)"],
 }
 
+CHECKS["C01"] = {
+    "pkg": "pipelineh",
+    "quick": {"wall_s": 45, "race_wall_s": 15, "race_max_runs": 200},
+    "thorough": {"wall_s": 600, "race_wall_s": 180, "race_max_runs": 600},
+    "rule": "Scenario: 1..3 synthetic targets (the repository's fake agent in fixed mode, 1..30 notifications per session: single and "
+            "multi-update, deletes incl. subtree and wildcard, scalar types int/uint/string/bool/double/float/decimal/bytes/leaf-list "
+            "(+JSON in a sub-batch), keyed paths, origins in the prefix or none, deprecated element paths, right / wrong / missing target "
+            "names) -> the shipped collector main package started from a generated text-proto config file (1..n targets, shared or distinct "
+            "requests, optional periodic metadata refresh) -> simulated gRPC (window 0/1/8/64) -> client/gnmi -> a reconnecting CacheClient "
+            "per target; in the fault sub-batch targets crash and restart with a different stream at drawn virtual times. At a virtual-time "
+            "horizon the client view must equal the reference model's replay of the target's last stream as the collector files it (target "
+            "name forced, empty origin promoted to openconfig); then cli.QueryDisplay ONCE in single / proto / group display, and the "
+            "shipped gnmi_cli Subscribe branch invoked with query flags, inline -proto and -proto_file must print the same leaves. "
+            "Non-trivial: every run.",
+    "real": ["cmd/gnmi_collector and cmd/gnmi_cli (re-packaged main packages: runCollector, executeSubscribe, flag handling)", "manager, connection, cache, subscribe, match, coalesce, ctree, client, client/gnmi, cli, path, value, testing/fake/gnmi (instrumented)", "generated stubs, protobuf, prototext, txtpbfmt, ygot path parsing, backoff, TLS key-pair loading"],
+    "stub": ["gRPC transport, dialling and listeners (simgrpc/simnet)", "grpctunnel dialer (constructed, never dialled)", "glog", "OS signals, flag.Parse on a real argv"],
+    "assumptions": ["atomic notifications and origins carried in the update path are not generated (the client library flattens atomic containers; the collector files path origins under the promoted prefix origin)",
+                    "target streams carry increasing timestamps (otherwise the cache's timestamp discipline, C02, decides what is visible)"],
+}
+
 UNDER_CONSTRUCTION = "check under construction, not claimed yet"
 NOT_APPLICABLE = {p: UNDER_CONSTRUCTION for p in ["C%02d" % i for i in range(1, 21)]}
 NOT_APPLICABLE["C19"] = ("pure functions of their input (path indexing, value conversion): no schedule, clock, fault, peer or "
@@ -194,6 +214,15 @@ _SUB_NOTE = ("Trusts the harness's reading of paths (sim/gen), the cache referen
              "stream's gRPC semantics (FIFO, reliable, window-limited) and interval reasoning on global event stamps. Leaves that are only "
              "stream-compatible with a subscription (shorter than its path) are outside 'matching content' and not judged.")
 LEVELS = {
+    "C01": {
+        "text": "Whole-system simulation: the shipped collector and CLI main packages, the manager, caches, Subscribe server, gNMI client and CLI "
+                "display all run for real inside one simulated process group on a simulated transport, under the seeded scheduler and virtual "
+                "time, with target crash/restart faults; the client view at a virtual-time horizon is compared with the reference model's "
+                "replay of each target's own stream, and the three equivalent CLI invocations with each other. Evidence, not proof.",
+        "design_ref": "7 C01",
+        "note": "Trusts the cache reference model (validated by C02/C03), the harness's own value decoding and the simulated transport. Convergence is judged at a fixed virtual-time horizon (90 s after the last fault), not at proven quiescence, because the collector's periodic tickers never let the system go idle.",
+        "technique": "deterministic whole-system simulation with crash/restart fault injection and a convergence oracle",
+    },
     "C20": {
         "text": "Seeded exploration of fake-target configurations with the engine's recv/send goroutines under the seeded scheduler and its "
                 "delays in virtual time; every message handed to Send is checked against the configuration, and two engines with the same "
